@@ -234,17 +234,28 @@ fn kernels_on(rng: &mut Rng, t: &mut Shards, dt: &DataType, max_len: usize) {
         finish(json!({"op":"interleave","type":ty,"fam":fam,"zw":zw,"nulltoks":nulltoks,"cols":colsj,"pairs":pj}), o, t);
     }
 
-    // zip (array/array, scalar combinations)
-    {
+    // zip (array/array, scalar combinations); the view types have dedicated scalar code paths
+    let zip_reps = if fam == "view" { 12 } else { 1 };
+    for rep in 0..zip_reps {
         let n = mk::rand_len(rng, max_len.min(70));
         let (m, mm) = mask(rng, n, true);
-        let a_scalar = rng.chance(30);
-        let b_scalar = rng.chance(30);
-        let np = *rng.pick(&[0usize, 30]);
-        let a = mk::array(rng, dt, if a_scalar { 1 } else { n }, Cfg::wild(np));
-        let np = *rng.pick(&[0usize, 30]);
-        let b = mk::array(rng, dt, if b_scalar { 1 } else { n }, Cfg::wild(np));
-        let (Ok(ar), Ok(br)) = (guarded(|| tok::rows(a.as_ref())), guarded(|| tok::rows(b.as_ref()))) else { return };
+        let a_scalar = if zip_reps > 1 { rep % 4 >= 2 || rep >= 8 } else { rng.chance(30) };
+        let b_scalar = if zip_reps > 1 { rep % 2 == 1 || rep >= 8 } else { rng.chance(30) };
+        // a scalar is a one-row array; taken as a one-row slice of a longer array it still
+        // carries the buffers / children of its neighbours
+        let mut operand = |rng: &mut Rng, scalar: bool| -> ArrayRef {
+            let np = *rng.pick(&[0usize, 30]);
+            if scalar && rng.chance(60) {
+                let m = 2 + rng.below(5);
+                let big = mk::array(rng, dt, m, Cfg::wild(np));
+                big.slice(rng.below(m), 1)
+            } else {
+                mk::array(rng, dt, if scalar { 1 } else { n }, Cfg::wild(np))
+            }
+        };
+        let a = operand(rng, a_scalar);
+        let b = operand(rng, b_scalar);
+        let (Ok(ar), Ok(br)) = (guarded(|| tok::rows(a.as_ref())), guarded(|| tok::rows(b.as_ref()))) else { continue };
         let o = call(|| {
             let sa;
             let sb;
